@@ -459,3 +459,23 @@ void h_s_insert(void)
     VF_END();
 }
 #endif
+
+#if defined(VF_S) && VF_S == 6
+/* ---- swap of two tree objects: every field changes hands, in particular BOTH element offsets of a
+ *      red-black tree (the binary tree's and the red-black layer's): a tree handle that kept its old
+ *      colour offset would colour the wrong bytes on the next insert (seeded change C02-5). -------- */
+#define BT_SWAPPED(x, y) ((x)->root == OLD((y)->root) && (x)->size == OLD((y)->size) && (x)->off == OLD((y)->off) && \
+                          (x)->cmp.func == OLD((y)->cmp.func) && (x)->cmp.priv == OLD((y)->cmp.priv))
+void cstl_bintree_swap(struct cstl_bintree * const a, struct cstl_bintree * const b)
+REQUIRES(FRESH(a, sizeof(*a)) && FRESH(b, sizeof(*b)))
+ASSIGNS(*a, *b)
+ENSURES(BT_SWAPPED(a, b) && BT_SWAPPED(b, a))
+;
+static inline void cstl_rbtree_swap(struct cstl_rbtree * const a, struct cstl_rbtree * const b)
+REQUIRES(FRESH(a, sizeof(*a)) && FRESH(b, sizeof(*b)))
+ASSIGNS(*a, *b)
+ENSURES(BT_SWAPPED(&a->t, &b->t) && BT_SWAPPED(&b->t, &a->t) && a->off == OLD(b->off) && b->off == OLD(a->off))
+;
+void h_s_bt_swap(void) { struct cstl_bintree * a, * b; cstl_bintree_swap(a, b); VF_END(); }
+void h_s_rb_swap(void) { struct cstl_rbtree * a, * b; cstl_rbtree_swap(a, b); VF_END(); }
+#endif
